@@ -70,7 +70,7 @@ def sub(x, y): return {"t": "sub", "a": [val(x), val(y)]}
 def div(x, y): return {"t": "div", "a": [val(x), val(y)]}
 def neg(x): return {"t": "neg", "a": [val(x)]}
 def ab(x): return {"t": "abs", "a": [val(x)]}
-def sq(x): return {"t": "sq", "a": [val(x)]}
+def sq(x): return {"t": "sq", "a": [val(x)]}          # evaluated once by the spec (sq node), no duplication
 def powi(x, n): return {"t": "pow", "a": [val(x)], "n": enc.native(n)}
 def pow2(n): return {"t": "pow2", "n": enc.native(n)}
 def poly(cs, x): return {"t": "poly", "c": [val(c) for c in cs], "x": val(x)}      # cs low -> high
@@ -119,13 +119,16 @@ def cadd(z, w): z, w = c_of(z), c_of(w); return (add(z[0], w[0]), add(z[1], w[1]
 def csub(z, w): z, w = c_of(z), c_of(w); return (sub(z[0], w[0]), sub(z[1], w[1]))
 def cmul(z, w):
     z, w = c_of(z), c_of(w)
+    z = (R(z[0]), R(z[1])); w = (R(w[0]), R(w[1]))          # each part is used twice: share it
     return (sub(mul(z[0], w[0]), mul(z[1], w[1])), add(mul(z[0], w[1]), mul(z[1], w[0])))
-def cnorm2(z): z = c_of(z); return add(sq(z[0]), sq(z[1]))
+def cnorm2(z): z = c_of(z); return add(sq(R(z[0])), sq(R(z[1])))
 def cpoly(cs, z):
     """Horner with complex coefficients/argument, cs low -> high"""
     acc = (Z(0), Z(0))
+    z = c_of(z); z = (R(z[0]), R(z[1]))
     for c in reversed(list(cs)):
         acc = cadd(cmul(acc, z), c)
+        acc = (R(acc[0]), R(acc[1]))
     return acc
 
 def c_rel_close(r, v, tolbits, p):
